@@ -18,6 +18,8 @@ SEED_HINTS = {
 @PRIOR@""",
     "F": """- Earlier rounds already produced the following changes for this property. Do NOT repeat them or close variants of them. This time look AWAY from the headline functions: break the property through code the mechanism merely relies on -- a small helper, a property/getter, a cache or memo, a default argument, configuration plumbing between two classes (a parameter passed under the wrong name, a unit mix-up ms vs s, a flag whose default flipped), an initialisation or reset path (what `__init__`, `seek`, `assign`, `begin_*`, `reset_*`, reconnect or re-subscribe leave behind), a utility/codec module the mechanism calls, or the condition under which a step is SKIPPED. The change must still genuinely violate the property's statement, not just an internal detail:
 @PRIOR@""",
+    "G": """- Earlier rounds already produced the following changes for this property. Do NOT repeat them or close variants of them. This time make it a CONCURRENCY or TIMING mistake: a statement moved across an `await` (state read before the await and used after it, or a flag set after instead of before), a lock / `async with` dropped or narrowed, two tasks or a task and a done-callback that now interleave differently, a waiter that is woken before the state it waits for is written (or never woken on one path), a shared collection mutated while another coroutine iterates it, deadline / timeout / backoff arithmetic (ms vs s, monotonic vs wall clock, a deadline recomputed inside a loop so that it never expires), a retry that now happens once too often or not at all. It must genuinely violate the property's statement and need a specific interleaving or timing to show:
+@PRIOR@""",
 }
 SEED_HINT = None
 
@@ -56,7 +58,7 @@ def main():
             for m in sorted(glob.glob(os.path.join(VERIF, "seeded", f"{pid}-*", "meta.json"))):
                 try:
                     mm = json.load(open(m))
-                    prior.append("  * " + " ".join(str(mm.get("summary", "")).split())[:260])
+                    prior.append("  * " + " ".join(str(mm.get("summary", "")).split())[:200])
                 except Exception:
                     pass
             out = out.replace("@HINT@", SEED_HINTS.get(suffix, SEED_HINTS["F"]).replace("@PRIOR@", "\n".join(prior)))
